@@ -92,7 +92,7 @@ def real_view(runs, obs):
         else:
             k, mod, subs = c
             ms = R.parse_stem(mod)
-            if ms is None or R.routine_name(*ms) not in subs:
+            if ms is None or R.routine_name(*ms) not in subs:       # names inside are lower-cased by canon_text
                 content = ["inconsistent-names", mod, subs]
             else:
                 content = [k, ms[0], "-" if ms[1] is None else ms[1]]
@@ -139,7 +139,7 @@ def property_failures(runs, fs0, obs):
         if out == "ok" and use is not None and use != [[mod, rout]] and use != [(mod, rout)]:
             fails.append({"clause": "psy-layer-use-mismatch", "run": r, "detail": [use, mod, rout]})
         if run["mode"] == "multiple":
-            fname = mod + ".f90"
+            fname = mod + ".f90"         # lower case, like the keys of obs["files"]
             if out != "ok":
                 fails.append({"clause": "multiple-run-raised", "run": r, "detail": obs["outcome"][r]})
                 continue
@@ -166,7 +166,7 @@ def property_failures(runs, fs0, obs):
                 fails.append({"clause": "two-runs-share-a-file", "run": r, "detail": [fname, owned[fname], r]})
             owned[fname] = r
         else:
-            want_mod = R.mod_stem(run["base"], 0)
+            want_mod = R.mod_stem(run["base"], 0).lower()
             want_rout = R.routine_name(run["base"], 0)
             c = files.get(want_mod + ".f90")
             holds_mine = (c is not None and c != "E" and tuple(c) != ("junk",) and c[0] == run["kern"]
@@ -222,6 +222,9 @@ MORE2 = [   # quick: all reduced interleavings + a sample of the full ones; thor
     ("multiple-2-empty-leftover", [run_("multiple", 3, 5), run_("multiple", 3, 6)],
      [pre_(3, 0, "empty"), pre_(3, 1, "render", 6)]),
     ("single-2-empty-leftover", [run_("single", 2, 5), run_("single", 2, 5)], [pre_(2, 0, "empty")]),
+    # module name spelled TESTKERN_W3_MOD in the algorithm layer (needs fixes/C29-newname-case.patch)
+    ("multiple-2-uppercase-MOD", [run_("multiple", 4, 5), run_("multiple", 4, 6)], []),
+    ("single-2-uppercase-MOD", [run_("single", 4, 5), run_("single", 4, 5)], [pre_(4, 0, "render", 5)]),
 ]
 CORE3 = [   # reduced interleavings (local steps glued to the preceding file-system step)
     ("multiple-3-same-module", [run_("multiple", 1, 5), run_("multiple", 1, 6), run_("multiple", 1, 5)], []),
@@ -232,7 +235,7 @@ CORE3 = [   # reduced interleavings (local steps glued to the preceding file-sys
 
 def random_scenario(rng, n):
     scheme = rng.choice(["multiple", "single", "mixed"])
-    bases = rng.choice([[1], [1], [2], [3], [1, 2]])
+    bases = rng.choice([[1], [1], [2], [3], [4], [1, 2]])
     runs = []
     for _ in range(n):
         mode = scheme if scheme != "mixed" else rng.choice(["multiple", "single"])
@@ -384,7 +387,8 @@ def run(chk):
             for sched in malformed_schedules(rng, len(runs), base):
                 one(chk, pool, state, name + "/malformed", runs, fs0, sched, gran="malformed")
         # fresh PSyclone objects + generated PSy layer (`use <module>, only: <routine>`)
-        for name, runs, fs0 in (CORE2 + MORE2 + CORE3)[: (12 if thorough else 5)]:
+        upper = [sc for sc in MORE2 if "uppercase" in sc[0]]
+        for name, runs, fs0 in upper + (CORE2 + MORE2 + CORE3)[: (12 if thorough else 4)]:
             for _ in range(4 if thorough else 1):
                 sched = rng.choice(schedules(runs, fs0, 1))
                 one(chk, pool, state, name + "/psy-layer", runs, fs0, sched, fresh=True, gran="reduced")
